@@ -4,7 +4,7 @@
 
 // Package atomixtap is a copy of github.com/atomix/go-sdk v0.13.3 pkg/test (client.go, driver.go, node.go;
 // Apache-2.0, Intel Corporation) - the in-memory Atomix test runtime the repository's own store tests use.
-// The only change: a client can be given a Tap, which is called (in the caller's goroutine) before every
+// The only change: a client can be given a Tap, which is called (in the caller's goroutine) before and after every
 // unary Atomix RPC issued through connections made by that client. The verification harness uses it as a
 // kill / park point between the individual Atomix writes of one store method.
 package atomixtap
@@ -64,8 +64,8 @@ type Client struct {
 	mu       sync.Mutex
 }
 
-// Tap is called before every unary RPC with the full gRPC method name
-type Tap func(method string)
+// Tap is called before (after == false) and after (after == true) every unary RPC with the full gRPC method name
+type Tap func(method string, after bool)
 
 // Tapped is a view of a Client whose connections call the tap before every unary RPC. It shares the cluster.
 type Tapped struct {
@@ -168,9 +168,13 @@ func (c *Client) connectTapped(ctx context.Context, tap Tap) (*grpc.ClientConn, 
 func (c *Client) connect(ctx context.Context, target string, tap Tap) (*grpc.ClientConn, error) {
 	tapUnary := func(ctx context.Context, method string, req, reply interface{}, cc *grpc.ClientConn, invoker grpc.UnaryInvoker, opts ...grpc.CallOption) error {
 		if tap != nil {
-			tap(method)
+			tap(method, false)
 		}
-		return invoker(ctx, method, req, reply, cc, opts...)
+		err := invoker(ctx, method, req, reply, cc, opts...)
+		if tap != nil {
+			tap(method, true)
+		}
+		return err
 	}
 	conn, err := grpc.DialContext(ctx, target,
 		grpc.WithContextDialer(c.network.Connect),
